@@ -93,6 +93,13 @@ where
     }
 
     fn deserialize_sk(bytes: &[u8]) -> Result<Self::Sk, InternalError> {
+        // `SecretKey::from_slice` zero-pads inputs that are shorter than the field size; only the
+        // exact length produced by `serialize_sk` is accepted, so that a private key has exactly
+        // one encoding
+        if bytes.len() != Self::SkLen::USIZE {
+            return Err(InternalError::PointError);
+        }
+
         SecretKey::<Self>::from_slice(bytes)
             .map(|secret_key| *secret_key.to_nonzero_scalar())
             .map_err(|_| InternalError::PointError)
